@@ -554,9 +554,14 @@ func quoteIdentifier(sb *strings.Builder, name string) {
 
 	sb.WriteString(`"`)
 	for _, b := range []byte(name) {
-		if b == '"' {
+		switch b {
+		case '"':
 			sb.WriteString(quoteEscape)
-		} else {
+		case '\\':
+			// Clickhouse treats backslash as an escape character
+			// inside quoted identifiers.
+			sb.WriteString(`\\`)
+		default:
 			sb.WriteByte(b)
 		}
 	}
@@ -1076,9 +1081,14 @@ func writeToUpperFunction(ctx *exprContext, sb *strings.Builder, x *parser.CallE
 func quoteSQLString(sb *strings.Builder, s string) {
 	sb.WriteString("'")
 	for _, b := range []byte(s) {
-		if b == '\'' {
+		switch b {
+		case '\'':
 			sb.WriteString("''")
-		} else {
+		case '\\':
+			// Clickhouse treats backslash as an escape character
+			// inside string literals.
+			sb.WriteString(`\\`)
+		default:
 			sb.WriteByte(b)
 		}
 	}
